@@ -243,6 +243,10 @@ class WSStream:
                 )
                 await self.app_put({"type": "websocket.connect"})
         elif isinstance(event, (Body, Data)) and not self.handshake.accepted:
+            if self.state == ASGIWebsocketState.RESPONSE:
+                # The app is already part way through a response of its
+                # own, a second one cannot be sent - drop the data.
+                return
             # Closed first, so that the app cannot race a response of its own
             self.closed = True
             await self._send_error_response(400)
